@@ -57,7 +57,7 @@ def recJ (r : Rec) : Json :=
 
 def attJ (a : Attempt) : Json :=
   Json.mkObj [("ev", .str "attempt"), ("time", int a.time), ("retry", int a.retry), ("out", outJ a.out),
-              ("end", int a.endTime), ("rec", recJ a.recAfter)]
+              ("end", int a.endTime), ("merged", int a.merged), ("rec", recJ a.recAfter)]
 
 def evJ : Ev → Json
   | .idle t d => Json.mkObj [("ev", .str "idle"), ("time", int t), ("done", .bool d)]
@@ -66,13 +66,44 @@ def evJ : Ev → Json
 
 def stepOf? (j : Json) : Option Step := do
   match ← jArr? j with
-  | [.str "cycle", dt, x, dur] => do
+  | [.str "cycle", dt, wait, x, dur, lag] => do
       let dt ← jNat? dt
+      let wait ← jNat? wait
       let x ← raisedOf? x
       let dur ← jNat? dur
-      some (.cycle dt x dur)
+      let lag ← jNat? lag
+      some (.cycle dt wait x dur lag)
   | [.str "restart", dn] => do let dn ← jNat? dn; some (.restart dn)
   | _ => none
+
+/-- Steps with absolute times, as the harness observes them: `["cycle_at", t, wait, x, dur, lag]`,
+    `["restart_at", t]`. Converted to the model's relative steps by following the model's own
+    clock (after an attempt the clock is the merge time); a step in the past is an error. -/
+inductive AbsStep where
+  | cycleAt (t : Int) (wait : Nat) (x : Raised) (dur lag : Nat)
+  | restartAt (t : Int)
+
+def absStepOf? (j : Json) : Option AbsStep := do
+  match ← jArr? j with
+  | [.str "cycle_at", t, wait, x, dur, lag] => do
+      let t ← jInt? t; let wait ← jNat? wait; let x ← raisedOf? x; let dur ← jNat? dur; let lag ← jNat? lag
+      some (.cycleAt t wait x dur lag)
+  | [.str "restart_at", t] => do let t ← jInt? t; some (.restartAt t)
+  | _ => none
+
+def runAbs (env : Env) (l : Limits) : Int → Rec → List AbsStep → Option (List Ev)
+  | _, _, [] => some []
+  | now, r, .restartAt t :: rest =>
+      if t < now then none else do
+        let evs := run env l now r [.restart (t - now).toNat]
+        let tl ← runAbs env l t (fromStorage (toStorage r) t) rest
+        some (evs ++ tl)
+  | now, r, .cycleAt t wait x dur lag :: rest =>
+      if t < now then none else
+        match run env l now r [.cycle (t - now).toNat wait x dur lag] with
+        | [.att a] => do let tl ← runAbs env l a.merged a.recAfter rest; some (.att a :: tl)
+        | [ev] => do let tl ← runAbs env l t r rest; some (ev :: tl)
+        | _ => none
 
 def scriptOf? (j : Json) : Option (List (Raised × Nat)) := do
   let xs ← jArr? j
@@ -92,7 +123,7 @@ def handle : DrvHandler := fun op args =>
       let env ← envOf? env; let lim ← limitsOf? lim; let r ← recOf? r
       let now ← jInt? now; let dur ← jNat? dur; let x ← raisedOf? x
       if r.awakened now then
-        let a := attemptAt env lim now r x dur
+        let a := attemptAt env lim now r x dur 0
         some (ok (Json.mkObj [("awake", .bool true), ("out", outJ a.out), ("end", int a.endTime),
                               ("rec", recJ a.recAfter)]))
       else
@@ -103,6 +134,13 @@ def handle : DrvHandler := fun op args =>
       let steps ← (← jArr? steps).mapM stepOf?
       let r0 := match r with | some r => r | none => fromScratch now
       some (ok (.arr ((run env lim now r0 steps).map evJ).toArray))
+  | "C11.runAbs", [env, lim, now, steps] => do
+      -- from scratch at `now`; steps carry absolute observed times
+      let env ← envOf? env; let lim ← limitsOf? lim; let now ← jInt? now
+      let steps ← (← jArr? steps).mapM absStepOf?
+      match runAbs env lim now (fromScratch now) steps with
+      | some evs => some (ok (.arr (evs.map evJ).toArray))
+      | none => some (err "time-went-back")
   | "C11.loop", [env, lim, now, script] => do
       -- the self-driven in-memory loop from scratch (activities, daemons, one timer series)
       let env ← envOf? env; let lim ← limitsOf? lim; let now ← jInt? now
